@@ -25,7 +25,7 @@ from vf.ref.cache import RefCache
 from vf.ref.rv32 import MINADDR as BASE
 
 M = 0xFFFFFFFF
-WVALS = {1: (0x77, 0xA5), 2: (0x5566,), 4: (0x11223344,)}
+WVALS = {1: (0x77, 0xA5, 0), 2: (0x5566, 0), 4: (0x11223344, 0, 0x11223344 ^ 0xFF00)}
 SKIP = {"_start", "_execution_time_s", "hits", "accesses", "last_was_hit", "performance_metrics"}
 
 
@@ -61,7 +61,7 @@ class Cfg:
                         ops.append(("r", width, a + b, 0))
                     ops.append(("u", 1 if b else 4, a + b, 0))
                     for width in (1, 2, 4):
-                        for vi in range(len(WVALS[width])):
+                        for vi in range({1: 2, 2: 1, 4: 1}[width]):
                             ops.append(("w", width, a + b, vi))
         elif alphabet == "word":
             for a in self.words:
@@ -69,12 +69,21 @@ class Cfg:
                 ops.append(("w", 4, a, 0))
                 ops.append(("w", 1, a + 1, 1))
                 ops.append(("u", 4, a, 0))
+        elif alphabet == "wordz":
+            # like "word", plus stores of the value 0 (word and byte) and a second word value that differs in one byte:
+            # zero is where truthiness tests and "skip the zero words" optimisations go wrong
+            for a in self.words:
+                ops.append(("r", 4, a, 0))
+                ops.append(("w", 4, a, 0))
+                ops.append(("w", 4, a, 1))
+                ops.append(("w", 1, a + 1, 2))
+                ops.append(("w", 2, a + 2, 1))
         elif alphabet == "control":
             for a in self.words:
                 ops.append(("r", 4, a, 0))
                 ops.append(("w", 4, a, 0))
                 ops.append(("u", 4, a, 0))
-        if alphabet in ("word", "control"):
+        if alphabet in ("word", "control", "wordz"):
             ops.append(("reset", 4, base, 0))  # what load_program does to the memory system: everything is cleared
         if variant == "mixed":
             # the same 32-bit address written in different ways inside ONE history (negative, >= 2^32): every word of the
@@ -107,7 +116,7 @@ class Cfg:
 
     def name(self):
         return (f"{self.kind}-{self.policy}-i{self.ib}b{self.bb}w{self.ways}-p{self.penalty}-{self.alphabet}"
-                + ("-pre" if self.pre else "") + ("" if self.variant == "base" else "-" + self.variant) + ("-const" if self.const else ""))
+                + ("-sparse" if self.pre == 2 else "-pre" if self.pre else "") + ("" if self.variant == "base" else "-" + self.variant) + ("-const" if self.const else ""))
 
     def args(self):
         return (self.ib, self.bb, self.ways, self.kind, self.policy, self.penalty, self.alphabet, self.pre, self.variant, self.const)
@@ -130,6 +139,8 @@ class World:
         self.ref_valid = True  # False once a rejected access left the residency unspecified
         if cfg.pre:
             for a in cfg.bytes:
+                if cfg.pre == 2 and not (a >> 2) & 1:
+                    continue  # sparse preload: only every other word exists below the cache (blocks are partly absent)
                 v = preload_byte(a)
                 self.mem.write_byte(cfg.spell(a), rv.U8(v), directly_write_to_lower_memory=True)
                 self.flat[a] = v
